@@ -41,7 +41,7 @@ func (ag *attribGroup) decode(dec decoder.Decoder) error {
 		case valURI:
 			v = &valStr{tag: vtag}
 		case valRangeOfInt:
-			v = &valInt{tag: vtag}
+			v = &valRangeInt{tag: vtag}
 		case naturelLang:
 			v = &valStr{tag: vtag}
 		case mimeMediaType:
@@ -51,6 +51,10 @@ func (ag *attribGroup) decode(dec decoder.Decoder) error {
 		case valEnum:
 			v = &valInt{tag: vtag}
 		case nameWithoutLang:
+			v = &valStr{tag: vtag}
+		default:
+			// any other attribute syntax has the same framing (name, value): keep it as
+			// an opaque string instead of dereferencing a nil value
 			v = &valStr{tag: vtag}
 		}
 
